@@ -82,6 +82,41 @@ func loadEngine(repo string) (*Engine, error) {
 		}
 	}
 	errPtrTags = []*Term{tagTerm(e.pathErrorPtr()), tagTerm(e.linkErrorPtr())}
+	// deterministic dynamic-type tags: every named type of the repository (and its pointer type) is numbered
+	// up front in sorted order, so that the generated queries do not depend on the order of exploration
+	{
+		var names []string
+		byName := map[string]types.Type{}
+		for _, p := range pkgs {
+			if p.Types == nil {
+				continue
+			}
+			sc := p.Types.Scope()
+			for _, n := range sc.Names() {
+				tn, ok := sc.Lookup(n).(*types.TypeName)
+				if !ok || tn.IsAlias() {
+					continue
+				}
+				if _, isIface := tn.Type().Underlying().(*types.Interface); isIface {
+					continue
+				}
+				if named, ok := tn.Type().(*types.Named); ok && named.TypeParams().Len() > 0 {
+					continue
+				}
+				k := p.PkgPath + "." + n
+				names = append(names, k, "*"+k)
+				byName[k] = tn.Type()
+				byName["*"+k] = types.NewPointer(tn.Type())
+			}
+		}
+		sort.Strings(names)
+		for _, k := range names {
+			tags.id(byName[k])
+		}
+		for _, k := range []string{"errorString", "fmtError", "context.backgroundCtx", "context.cancelCtx"} {
+			pseudoTag(k)
+		}
+	}
 	if t := e.lookupType("os", "LinkError"); t != nil {
 		errPtrTags = append(errPtrTags, tagTerm(types.NewPointer(t)))
 	}
